@@ -731,3 +731,15 @@ M('c07j-request-decompressor-without-enable-test', 'C07', 'break', TX,
   '    if (tx->connp->cfg->request_decompression_enabled) {\n        tx->request_content_encoding = HTP_COMPRESSION_NONE;', '    {\n        tx->request_content_encoding = HTP_COMPRESSION_NONE;', 'C07.j')
 M('c07j-left-over-not-destroyed', 'C07', 'break', TX,
   '                if (tx->connp->req_decompressor != NULL) {\n                    htp_tx_req_destroy_decompressors(tx->connp);\n                }\n                tx->connp->req_decompressor = htp_gzip_decompressor_create(', '                tx->connp->req_decompressor = htp_gzip_decompressor_create(', 'C07.j')
+
+# ---------------- wave-9 rules
+M('c17e-nul-consumes-needle-position', 'C17', 'break', 'htp/bstr.c',
+  '            if (data1[k] == 0) {\n                j--;\n                continue;\n            }', '            if (data1[k] == 0) continue;', 'C17.e')
+M('c17e-nul-skip-rewritten-keep', 'C17', 'keep', 'htp/bstr.c',
+  '            if (data1[k] == 0) {\n                j--;\n                continue;\n            }', '            if (data1[k] == 0) {\n                --j;\n                continue;\n            }')
+M('c13e-raw-split-only-without-supplied-uri', 'C13', 'break', TX,
+  '    } else {\n        // Parse the request URI into htp_tx_t::parsed_uri_raw.', '    } else if (tx->parsed_uri == NULL) {\n        // Parse the request URI into htp_tx_t::parsed_uri_raw.', 'C13.e')
+M('c13e-ipv6-port-text-window-differs', 'C13', 'break', UT,
+  '                *port = bstr_dup_mem(data + pos + 1, len - pos - 1);', '                *port = bstr_dup_mem(data + pos, len - pos);', 'C13.e')
+M('c19g-destroy-inferred-from-pointers', 'C19', 'break', TX,
+  '    if (tx->is_config_shared == HTP_CONFIG_PRIVATE) {\n        htp_config_destroy(tx->cfg);\n    }\n\n    free(tx);', '    if (tx->cfg != tx->connp->cfg) {\n        htp_config_destroy(tx->cfg);\n    }\n\n    free(tx);', 'C19.g')
